@@ -24,10 +24,12 @@ import (
 //
 //	in:  {"ids": ["Chrome-120", ..., "Randomized"] (the candidate IDs; "Randomized" = the unseeded HelloRandomized), "timeout_ms": 60000,
 //	      "scenarios": [{"id": 3, "configured": [names] (Roller.HelloIDs), "preset": name or "" (Roller.WorkingHelloID
-//	                     before the first call), "steps": [{"accept": [parrot names], "rmode": "refuse"|"any"|"pin", "tcpfail": bool, "n": 1|2}]}]}
+//	                     before the first call), "tmo_ms": Roller.TlsHandshakeTimeout or 0,
+//	                     "steps": [{"accept": [parrot names], "stall": [parrot names], "rmode": "refuse"|"stall"|"any"|"pin", "tcpfail": bool, "n": 1|2}]}]}
 //	out: {"ev":"Table", ...} once; per Dial {"ev":"Dial", sc, step, caller, ret, seen:[names the server saw for this caller, in order],
 //	      seen_k:[0 for a recognised parrot, else the number of that concrete fingerprint], seen_ok:[did the server complete that handshake],
-//	      snis, given (the serverName argument), conn (ID of the returned UConn or "-"), cseed (hex of its ClientHelloID.Seed or ""), csni};
+//	      snis, given (the serverName argument), conn (ID of the returned UConn or "-"), cseed (hex of its ClientHelloID.Seed or ""), csni,
+//	      ms (how long Dial took), tmo (Roller.TlsHandshakeTimeout in ms)};
 //	      per step {"ev":"StepEnd", sc, step, working, wseed (hex of WorkingHelloID.Seed or ""), stray}
 //
 // A hello that is none of the parrots is a randomized one; the server numbers its concrete fingerprint (exactFP). In "pin" mode it
@@ -39,7 +41,8 @@ import (
 
 type rollerStep struct {
 	Accept  []string `json:"accept"`
-	RMode   string   `json:"rmode"` // randomized hellos: "refuse" | "any" | "pin" (only the concrete fingerprint accepted first, for the rest of the scenario)
+	Stall   []string `json:"stall"` // parrots whose hello is taken and never answered (the connection is held open)
+	RMode   string   `json:"rmode"` // randomized hellos: "refuse" | "stall" | "any" | "pin" (only the concrete fingerprint that succeeded first, for the rest of the scenario)
 	TcpFail bool     `json:"tcpfail"`
 	N       int      `json:"n"`
 }
@@ -48,6 +51,7 @@ type rollerScenario struct {
 	ID         int          `json:"id"`
 	Configured []string     `json:"configured"`
 	Preset     string       `json:"preset"`
+	TmoMs      int          `json:"tmo_ms"` // Roller.TlsHandshakeTimeout for this scenario (0: what NewRoller chose, 11..30 s)
 	Steps      []rollerStep `json:"steps"`
 }
 
@@ -138,6 +142,8 @@ type rollerServer struct {
 	l        net.Listener
 	mu       sync.Mutex
 	accept   map[string]bool
+	stall    map[string]bool
+	hold     time.Duration // how long a stalled connection is held open without an answer
 	seen     []seenHello
 	table    map[string]string // fingerprint -> ID name
 	cert     tls.Certificate
@@ -166,9 +172,10 @@ func (s *rollerServer) serve() {
 				name, ok := s.table[helloFP(chi)]
 				k := 0
 				s.mu.Lock()
-				var acc bool
+				var acc, stalled bool
 				if ok {
 					acc = s.accept[name]
+					stalled = s.stall[name]
 				} else {
 					// not one of the parrots: a randomized hello, identified by its concrete fingerprint
 					name = randName
@@ -178,6 +185,8 @@ func (s *rollerServer) serve() {
 					}
 					k = s.fpNum[fp]
 					switch s.rmode {
+					case "stall":
+						stalled = true
 					case "any":
 						acc = true
 					case "pin":
@@ -193,7 +202,13 @@ func (s *rollerServer) serve() {
 				}
 				s.seen = append(s.seen, seenHello{name, k, chi.ServerName, false})
 				idx = len(s.seen) - 1
+				hold := s.hold
 				s.mu.Unlock()
+				if stalled {
+					// blackhole: keep the TCP connection, say nothing, for longer than the client is willing to wait
+					time.Sleep(hold)
+					return nil, errors.New("verif: this fingerprint is stalled")
+				}
 				if !acc {
 					return nil, errors.New("verif: this fingerprint is blocked")
 				}
@@ -299,6 +314,10 @@ func runRoller(sc rollerScenario, ids []string, table map[string]string, cert tl
 	if err != nil {
 		return err
 	}
+	if sc.TmoMs > 0 {
+		r.TlsHandshakeTimeout = time.Duration(sc.TmoMs) * time.Millisecond
+	}
+	srv.hold = r.TlsHandshakeTimeout + r.TlsHandshakeTimeout/2 + 200*time.Millisecond
 	r.HelloIDs = nil
 	for _, n := range sc.Configured {
 		id, err := lookupID(n)
@@ -321,6 +340,10 @@ func runRoller(sc rollerScenario, ids []string, table map[string]string, cert tl
 		for _, n := range st.Accept {
 			srv.accept[n] = true
 		}
+		srv.stall = map[string]bool{}
+		for _, n := range st.Stall {
+			srv.stall[n] = true
+		}
 		srv.seen = nil
 		srv.rmode = st.RMode
 		srv.mu.Unlock()
@@ -332,6 +355,7 @@ func runRoller(sc rollerScenario, ids []string, table map[string]string, cert tl
 			uc  *tls.UConn
 			err error
 			ret string
+			ms  int64
 		}
 		results := make([]res, st.N)
 		var wg sync.WaitGroup
@@ -341,8 +365,9 @@ func runRoller(sc rollerScenario, ids []string, table map[string]string, cert tl
 				defer wg.Done()
 				done := make(chan res, 1)
 				go func() {
+					t0 := time.Now()
 					uc, err := r.Dial("tcp", addr, given[c])
-					done <- res{uc: uc, err: err}
+					done <- res{uc: uc, err: err, ms: time.Since(t0).Milliseconds()}
 				}()
 				select {
 				case x := <-done:
@@ -363,7 +388,7 @@ func runRoller(sc rollerScenario, ids []string, table map[string]string, cert tl
 		for c := 0; c < st.N; c++ {
 			x := results[c]
 			ev := map[string]any{"ev": "Dial", "sc": sc.ID, "step": si + 1, "caller": c + 1, "given": given[c],
-				"err": hlib.ErrStr(x.err), "conn": "-", "csni": "", "cseed": ""}
+				"err": hlib.ErrStr(x.err), "conn": "-", "csni": "", "cseed": "", "ms": x.ms, "tmo": r.TlsHandshakeTimeout.Milliseconds()}
 			sn, sk, ss, so := []string{}, []int{}, []string{}, []bool{}
 			for _, h := range seen {
 				if h.sni == given[c] {
